@@ -55,7 +55,7 @@ func prepareCodec(ctx *Ctx, spec codecSpec) (*Prepared, error) {
 	jo := JobOptions{LoopBudget: 4096, AllocLimit: 1 << 16, TimeoutMs: 20000, EnumCap: 64, CheckRewrites: true, Witnesses: 1, FuncBudgetS: 90}
 	if ctx.Tier == "thorough" {
 		jo.TimeoutMs = 120000
-		jo.FuncBudgetS = 600
+		jo.FuncBudgetS = 300
 	}
 	perJob := spec.perJob
 	if perJob == 0 {
